@@ -174,7 +174,28 @@ def scope(res, pid, rng, tier):
                "01.02.03.04", "1.2.3.4444", "25.5.2.55", "2555.1.1.1", "0.0.0.00000000000"}
     for t in sorted(pieces):
         sess.op("quad " + cps(t), lambda t=t: "ok %d" % (1 if core_re.fullmatch(t) else 0), {"piece": t})
+    # ... and the language `Lang` of both core patterns, decided by the (proved sound and complete) anchored matcher `langB`,
+    # against CPython's fullmatch of the core of each pattern: the notion the scanner theorems are stated with
+    enc6 = _ipa._IPv6_ENCLOSING
+    pat6 = _ipa.IPv6_PATTERN.pattern
+    pre6, suf6 = r"(?:(?<=^)|(?<={e}))".format(e=enc6), r"(?={e}|$)".format(e=enc6)
+    core6_re = re.compile(pat6[len(pre6): len(pat6) - len(suf6)], re.IGNORECASE) if pat6.startswith(pre6) and pat6.endswith(suf6) else None
+    pieces6 = set()
+    for s_ in S6:
+        for t in re.findall(r"[0-9A-Za-z:.%]+", s_):
+            pieces6.add(t)
+            pieces6.add(t[:-1])
+            pieces6.add(t + ":")
+    pieces6 |= {"::", "::1", "1::", "1:2:3:4:5:6:7:8", "1:2:3:4:5:6:7", "1:2:3:4:5:6:7:8:9", "::ffff:1.2.3.4", "fe80::1%eth0", "FE80::A", "12345::", "g::1", ":::",
+                "1::2::3", "::1.2.3.4", "1:2:3:4:5:6:1.2.3.4", "::ffff:0:255.255.255.255", ""}
+    for t in sorted(pieces6)[: (3000 if tier == "thorough" else 900)]:
+        if core6_re is not None and len(t) <= 60:
+            sess.op("lang 6 " + cps(t), lambda t=t: "ok %d" % (1 if core6_re.fullmatch(t) else 0), {"piece": t})
+    for t in sorted(pieces)[:400]:
+        if len(t) <= 40:
+            sess.op("lang 4 " + cps(t), lambda t=t: "ok %d" % (1 if core_re.fullmatch(t) else 0), {"piece": t})
     res.count("core_language_pieces", len(pieces))
+    res.count("core6_language_pieces", len(pieces6))
     dis = sess.finish()
     res.evaluations += len(rows) + len(pieces)
     res.traces += 2
